@@ -198,6 +198,18 @@ def run(ctx):
     for e in ctx.known:
         if e.get("status") == "known":
             ctx.witness(e["key"], ctx.known_hits.get(e["key"], 0) > 0)
+    # the same questions asked by two threads at once (deterministic line scheduler, units of the scenario's own with exact
+    # ratios, the temperature scales, levels): what this property says about an answer holds for every thread's answer
+    if ctx.shard == 0:
+        from .. import concurrent_conv
+        _mon = locals().get("mon")
+        if _mon is not None:
+            _mon.paused = True
+        try:
+            concurrent_conv.section(ctx, env, trials=(36 if ctx.tier == "quick" else 600), key="C09")
+        finally:
+            if _mon is not None:
+                _mon.paused = False
     ctx.require("declarations", 50)
     ctx.require("cycles", 10)
     ctx.require("named_units_checked", 50)
